@@ -255,6 +255,11 @@ impl<'a, const N: usize, E: Copy + Debug> Axle<'a, N, E> {
     pub fn new() -> Self {
         let mut inputs: [core::mem::MaybeUninit<RefCell<Terminal<'a, E>>>; N] =
             [const { core::mem::MaybeUninit::uninit() }; N];
+        //Verification hook: poison the scratch array so that a read of an unwritten slot is visible.
+        #[cfg(rrtk_verif)]
+        unsafe {
+            core::ptr::write_bytes(inputs.as_mut_ptr(), 0x7F, N);
+        }
         for i in &mut inputs {
             i.write(Terminal::new());
         }
